@@ -597,7 +597,8 @@ func TestCheck(t *testing.T) {
 	for _, p := range []struct {
 		name string
 		run  func(*testing.T, *engine.Check)
-	}{{"verify", runVerify}, {"endpoint", runEndpoint}, {"reqobj", runReqObj}, {"interop", runInterop}} {
+	}{{"verify", runVerify}, {"endpoint", runEndpoint}, {"reqobj", runReqObj}, {"interop", runInterop},
+		{"history-verify", runHistoryVerify}, {"history-endpoint", runHistoryEndpoint}, {"history-reqobj", runHistoryReqObj}} {
 		t0 := time.Now()
 		p.run(t, c)
 		walls[p.name] = time.Since(t0).Seconds()
